@@ -21,7 +21,7 @@ FOREIGN_POSITIONS = ["", "g", "dc", "m", "m.init_args", "ld.0", "fit", "od", "dd
 FOREIGN_KINDS = ["int", "none", "dict", "str"]
 REQUIRED_KEYS = ["a", "g.b", "dc.a", "m.init_args.w", "ld.0.a", "fit.x", "subcommand+fit", "m", "od.a", "dd.k.a"]
 REMOVAL_KINDS = ["removed", "none"]
-CHANNELS = ["object", "parse_string", "cfg_text", "argv", "env"]
+CHANNELS = ["object", "parse_string", "cfg_text", "argv", "env", "validate"]
 
 
 def _parser():
@@ -75,6 +75,34 @@ def _call(channel, obj):
     try:
         if channel == "object":
             return "ok", p.parse_object(copy.deepcopy(obj))
+        if channel == "validate":
+            # a configuration object tampered with after parsing, handed to validate()
+            from jsonargparse import Namespace, dict_to_namespace
+
+            def to_ns(o):
+                if isinstance(o, dict) and "class_path" not in o:
+                    return Namespace(**{k: (to_ns(v) if isinstance(v, dict) and k in ("g", "fit", "test", "dc") else v) for k, v in o.items()})
+                return o
+
+            cfg = p.parse_object(_valid())
+            tampered = to_ns(copy.deepcopy(obj))
+            for k in list(vars(cfg)):
+                if k not in vars(tampered):
+                    del cfg[k]
+            for k, v in vars(tampered).items():
+                if k in ("g", "fit", "dc") and isinstance(v, Namespace):
+                    for kk in list(vars(cfg[k])):
+                        if kk not in vars(v):
+                            del cfg[k][kk]
+                    for kk, vv in vars(v).items():
+                        cfg[k][kk] = vv
+                elif k in ("a", "subcommand") or k not in vars(cfg):
+                    cfg[k] = v
+            try:
+                p.validate(cfg)
+            except (TypeError, KeyError) as ex:
+                return "error", str(ex)
+            return "ok", cfg
         if channel == "parse_string":
             return "ok", p.parse_string(json.dumps(obj))
         if channel == "cfg_text":
@@ -120,6 +148,8 @@ def _foreign_once(pos, kind, channel):
             return None
     if channel == "env" and pos in ("g", "fit"):
         return None  # environment variables that no argument reads are not an input of the parser
+    if channel == "validate" and pos not in ("", "g", "fit", "dc"):
+        return None  # (validate channel: only the namespace levels are tampered with)
     status, res = _call(channel, obj)
     S.note("foreign")
     if status == "ok":
@@ -145,6 +175,8 @@ def _required_once(key, how, channel):
             node[leaf] = None
     if how == "none" and channel in ("argv", "env"):
         return None  # 'null' on the command line / in the environment is a value, not an omission
+    if channel == "validate" and key not in ("a", "g.b", "dc.a", "fit.x", "subcommand+fit"):
+        return None
     status, res = _call(channel, obj)
     S.note("required")
     if status == "ok":
